@@ -315,7 +315,9 @@ CATALOGUE = [
     word_fault("DDW0 identifier", "DDW", with_id(lambda rng: rng.choice([0xE5, 0x00, 0xEF, 0xF4])), {"990", "992"}, ITS3),
     word_fault("DDW0 reserved bit", "DDW", setbit([56, 57, 60, 63, 64, 66]), {"60"}, ITS3),
     word_fault("DDW0 index not 0", "DDW", setbit([68, 69, 70, 71]), {"60"}, ITS3),
-    word_fault("data word identifier", "DATA", with_id(lambda rng: rng.choice([0x29, 0x2F, 0x3F, 0x00, 0x1F, 0x60, 0x7F, 0xFF])), {"991", "70"}, ITS3, which=-1),
+    # a data word with an invalid identifier: the documented data-word sanity error [E70] (the unrecognised-ID [E991] alone is not the documented family)
+    word_fault("data word identifier", "DATA", with_id(lambda rng: rng.choice([0x00, 0x1F, 0x60, 0x7F, 0xFF])), {"70"}, ITS3, which=-1),
+    word_fault("data word identifier with an inner/outer barrel prefix", "DATA", with_id(lambda rng: rng.choice([0x29, 0x2C, 0x2F, 0x3F, 0x47, 0x4F, 0x57, 0x5F])), {"70"}, ITS3, which=-1),
     f_ob_input7(),
     f_padding(),
     # ---- state dependent ITS rules: running, ITS ------------------------------------------------------------------
